@@ -48,7 +48,12 @@ fn main() {
             let run: &'static Run = Box::leak(Box::new(Run::new(&id, tier, entry.level)));
             let limit = std::env::var("VERIF_HANG_SECS").ok().and_then(|s| s.parse().ok()).unwrap_or(30);
             run.start_watchdog(limit);
-            (entry.run)(run);
+            // A panic of the harness itself (not of the code under test, which is captured per
+            // case) is a machinery failure, never a verdict.
+            if std::panic::catch_unwind(std::panic::AssertUnwindSafe(|| (entry.run)(run))).is_err() {
+                run.machinery_error("the harness panicked (see stderr); results are incomplete");
+                run.cap("harness panic");
+            }
             std::process::exit(run.finish());
         }
         "replay" => {
